@@ -1,9 +1,55 @@
 """C09 C43 C36 C08 C11 -- spec/Connect: the connection state machine and command layer of client.go.
 
-C09: Connect.tla (command layer of one connection) checked exhaustively by TLC; every path of the exhaustive
-     dump (all sequences of <= 3 commands over the alphabet, every environment configuration) and simulated longer
-     behaviours (timers, Client.Disconnect, transport close, async completions) are replayed on real clients over
-     JSON and Protobuf framing through centrifuge.HandleReadFrame; the monitors are evaluated on the real frames.
+C09  Connect.tla (+ConnectSim): command layer of one connection. TLC exhaustive (closes delayed arbitrarily); every path of
+     an exhaustive dump (all sequences of <= 3 commands over 56 symbols x id modes, 6 environment configurations) and
+     simulated longer behaviours (timers, Client.Disconnect, transport close, async completions) replayed on real clients
+     over JSON and Protobuf framing through centrifuge.HandleReadFrame; monitors evaluated on the real frames/handler log.
+C43  ConnHistory.tla: function table of history / presence / presence_stats requests, replayed through the client command
+     path and compared with the row and with Node.History(effective filter) / Node.Presence / Node.PresenceStats.
+C36  ConnTimers.tla (+Sim): the multiplexed timer; harness TimerScheduler fires ping/pong/stale/presence virtually, one
+     model Tick = one real second for connection / subscription expiry; action properties re-evaluated on the real run.
+C08  ConnLife.tla (+Sim): connect handshake / presence tick / close / Node.Shutdown for two connections, replayed with
+     every thread parked at natural gates (OnConnecting, Broker.Subscribe, OnConnect, OnAlive, Transport.Close).
+C11  ConnLife.tla with pushes in the connect window + ConnDict.tla (codec life cycle) replayed over a real WebSocket
+     connection with a recording DictionaryCompression engine.
+
+Genuine defects found on the unchanged tree (signatures as printed by the checks):
+  C09  no-reply:sub_refresh:tagschange, no-reply:sub_refresh:async/tagschange   (DESIGN 10 item 12)
+  C08  connected-after-shutdown:during, connected-after-shutdown:after          (DESIGN 10 item 8)
+  C36  expire:closed-although-refreshed:client-zero, expire:closed-although-refreshed:handler-zero
+       (a RefreshHandler answer with ExpireAt = 0, "no expiration", keeps the old deadline: the connection is closed as
+       expired; handleRefresh and expire())
+  C11  first-frame:push-send, first-frame:push-pub   (a push sent to a connection between addClient and its connect reply
+       is written before the reply; DESIGN 10 item 1 root cause for the publication)
+Not a property violation, reported: after Client.Refresh(ExpireAt=0) nextExpire stays armed; when that timer fires
+expire() returns without re-arming anything, so pings / presence ticks stop (ConnTimers.tla ArmedWhileConnected).
+
+Mutation testing (scratch worktrees /tmp/connect-*, each run through the harness mode of the property; caught = VIOLATION
+with a signature other than the known ones above):
+  C09  caught: authenticated gate dropped for presence (gate:not-closed:presence); history error reply written twice
+       (dup-reply:history:err); pong check `lastPing <= 0` -> `< 0` (pong:not-closed); unsubscribe of a channel without
+       subscription not answered (no-reply:unsubscribe:ok); sub_refresh without subscription returns nil
+       (no-reply:sub_refresh:*).  A write attempted after the transport closed is reported as drift, not as a violation
+       (the property allows anything once the connection is closed).
+  C43  caught: clamp ignores negative limits (history:limit-exceeded:limit<0); clamp off by one `> max+1`
+       (history:limit-exceeded:limit>0, needs limit 3 in the table: added); reverse+since 0 accepted
+       (history:reverse-since-zero-accepted); since epoch dropped by handleHistory (history:differs-from-node:code);
+       presence stats served from a cache (presence_stats:differs-from-node).
+  C36  caught: never-ponged clients exempt from the pong check (no-pong:not-closed); stale close only for unusable
+       connections (stale:not-closed); grace delay ignored when arming the expiry (expire:closed-before-deadline);
+       refresh command does not re-arm (expire:closed-before-deadline:client-extend); subscription grace delay ignored
+       (sub-expire:unsubscribed-although-valid); pong timeout never armed (no-pong:not-closed).  First attempt at the pong
+       mutation (`lastSeen < lastPing - 1h`) was equivalent for never-ponged clients and was replaced.
+  C08  caught: close() no longer takes presenceMu (alive-overlaps-disconnect); unsubscribe callback skipped for server-side
+       subscriptions (unsubscribe-missing); hub shutdown does not close (still-connected-after-shutdown); close() forgets
+       removeClient unless the transport closed (registered-after-shutdown).  `connect` processed again on a duplicate
+       connect command shows as C11 connect-reply-twice + C08 drift: the connect callback itself is protected twice
+       (authenticated check and the status check of triggerConnect), several other single mutations are equivalent.
+  C11  caught: codec closed before the writer drained (dict:later-frame-raw / close-overlaps-encode / encode-after-close);
+       codec active from SetDictionaryCompression on (dict:connect-reply-encoded); promoted codec never closed
+       (dict:never-closed); promotion skipped for long frames (dict:later-frame-raw); duplicate connect command accepted
+       (connect-reply-twice).  The push part is exercised by the unchanged tree itself (violations above; gone with the
+       candidate repair that holds early pushes until the reply is queued).
 """
 import json
 import threading
@@ -264,7 +310,7 @@ CHECKS = {'C09': c09, 'C43': c43, 'C36': c36, 'C08': c08, 'C11': c11}
 _note9 = ('Bounds: exhaustive design check 2 commands (quick) / 3 (thorough) with arbitrarily delayed close goroutines, 1 async callback, 2 timer firings, 1 environment close; '
           'exhaustive replay: all sequences of <= 3 commands (alphabet of 56 symbols x id modes, 6 environment configurations) with <= 1 async callback; simulated replay: <= 7 commands, '
           '<= 2 async callbacks, <= 4 timer firings. Trusted: TLC, lib/tlaparse.py, harness projection/monitor code, harness TimerScheduler.')
-_note43 = ('Bounds: streams of 0..3 (quick) / 0..6 (thorough) publications, limits {-1,0,1,2,5} / {-1,0,1,2,3,5,7}, since none or offset 0..top+1 with 3 epochs, both directions, '
+_note43 = ('Bounds: streams of 0..3 (quick) / 0..6 (thorough) publications, limits {-1,0,1,2,3,5} / {-1,0,1,2,3,5,7}, since none or offset 0..top+1 with 3 epochs, both directions, '
            'HistoryMaxPublicationLimit {0,2} / {0,1,2,4}; presence with <= 3 / 4 subscribers. Exhaustive within the bounds. Trusted: TLC, lib/tlaparse.py, harness comparison code.')
 _note36 = ('Bounds: exhaustive 4 s / 5 actions (quick), 6 s / 7 actions (thorough) over 12 configurations; replay 400 / 3000 simulated behaviours of <= 5 s and <= 8 actions. '
            'Ping 1 s, pong timeout 0.4 s, grace delays 1 s, expiries 1-2 s, refresh extends by 2 s. Trusted: TLC, lib/tlaparse.py, harness TimerScheduler and monitor code, wall clock.')
